@@ -137,6 +137,10 @@ pub fn check_c01(cx: &mut Ctx<'_, '_>) {
         let mut w = writer::Basic::raw(SharedBuf::default(), Coloring::Never, 0).summarized().assert_normalized();
         feed(&mut w, &norm, &bcli);
         results.push(("AssertNormalized<Summarize<Basic>>", false, Stats::<TW>::execution_has_failed(&w)));
+        // the other order of the two wrappers: Normalize outermost, over Summarize
+        let mut w = writer::Basic::raw(SharedBuf::default(), Coloring::Never, 0).summarized().normalized();
+        feed(&mut w, items, &bcli);
+        results.push(("Normalize<Summarize<Basic>>", false, Stats::<TW>::execution_has_failed(&w)));
         let mut w = writer::Basic::new::<TW>(SharedBuf::default(), Coloring::Never, 0).summarized().discard_arbitrary_writes();
         feed(&mut w, items, &bcli);
         results.push(("discard::Arbitrary<Summarize<..>>", false, Stats::<TW>::execution_has_failed(&w)));
